@@ -36,6 +36,7 @@ std::string gen_label(Src &s, bool weird_ok) {
 }
 // names from the grammar: labels of boundary lengths, empty labels (leading / double / trailing dots), total
 // lengths around 253..256, backslash "escapes" and non-ASCII bytes (sent verbatim: evdns documents no escaping)
+const char *K_OVERLONG = "C36/overlong-name-sent";
 std::string gen_name(Src &s, bool allow_empty_label, bool allow_overlong) {
   int shape = s.below(8);
   std::string n;
@@ -136,12 +137,22 @@ extern "C" int LLVMFuzzerTestOneInput(const uint8_t *data, size_t size) {
   // expected candidates, in order (PTR requests are never searched)
   std::vector<std::string> cand;
   bool searched = qtype != T_PTR && !(flags & DNS_QUERY_NO_SEARCH) && !doms.empty();
-  if (!searched) cand.push_back(name);
-  else {
-    auto app = [&](const std::string &d) { return name + (name.back() == '.' ? "" : ".") + d; };
-    if (count_dots(name) >= ndots) cand.push_back(name);
-    for (auto &d : doms) cand.push_back(app(d));
-    if (count_dots(name) < ndots) cand.push_back(name);
+  auto candidates = [&]() {
+    cand.clear();
+    if (!searched) cand.push_back(name);
+    else {
+      auto app = [&](const std::string &d) { return name + (name.back() == '.' ? "" : ".") + d; };
+      if (count_dots(name) >= ndots) cand.push_back(name);
+      for (auto &d : doms) cand.push_back(app(d));
+      if (count_dots(name) < ndots) cand.push_back(name);
+    }
+  };
+  candidates();
+  // open finding C36/overlong-name-sent: text of at most 255 characters whose wire form needs 256/257 octets is transmitted.  Excluded by
+  // construction (only that sub-domain: longer text is refused by the unchanged library and stays in): the name is shortened until no candidate is in it.
+  if (verif_known(K_OVERLONG)) {
+    auto in_subdomain = [&]() { for (auto &cn : cand) { TextName t = split_text(cn); if (t.too_long && !t.empty_label && !t.long_label && cn.size() <= 255) return true; } return false; };
+    if (in_subdomain()) { verif_known_skipped(K_OVERLONG); while (in_subdomain() && name.size() > 10) { name.resize(name.size() - 10); if (name.back() == '.' && name.size() > 1 && name[name.size() - 2] == '.') name.pop_back(); candidates(); } }
   }
   TR("config: randomize-case=%d(%s) edns=%ld ndots=%d%s domains(search order)=%zu flags=%d type=%u", randcase, rc_mode ? "set" : "default", edns, ndots, ndots_set ? "" : "(default)", doms.size(), flags, qtype);
   for (auto &d : doms) TR("  domain \"%s\"", esc(d).c_str());
@@ -173,7 +184,7 @@ extern "C" int LLVMFuzzerTestOneInput(const uint8_t *data, size_t size) {
         const std::string &cn = cand[k]; TextName t = split_text(cn);
         Query q = decode_query_strict(d.data.data(), d.data.size());
         if (!t.ok) {
-          const char *key = t.empty_label ? "C36/empty-label-sent" : t.too_long ? "C36/overlong-name-sent" : "C36/long-label-sent";
+          const char *key = t.empty_label ? "C36/empty-label-sent" : t.too_long ? K_OVERLONG : "C36/long-label-sent";
           VERIF_FAIL(key, "a query was transmitted for \"%s\" (len %zu), which cannot be encoded as valid labels (%s); datagram %s decodes %s%s",
                      esc(cn, 80).c_str(), cn.size(), t.empty_label ? "empty label" : t.too_long ? "wire length > 255" : "label > 63",
                      hexs(d.data.data(), d.data.size(), 40).c_str(), q.ok ? "as well-formed for another name" : "as malformed: ", q.ok ? "" : q.why);
